@@ -31,6 +31,9 @@ var le = binary.LittleEndian
 
 type valCase struct {
 	V valgen.Val `json:"v"`
+	// Look: the value is printed (what a debug log or an error message does) before it is
+	// encoded, and once more before it is encoded a second time
+	Look bool `json:"printed_before_encoding,omitempty"`
 }
 
 func class(v valgen.Val) string {
@@ -78,9 +81,22 @@ func runVal(c valCase) (f *vh.Failure) {
 		panic(fmt.Sprintf("reference encoder rejects generated value: %v", err))
 	}
 	// encode direction
-	lib, err := dt.Bytes(le, valgen.ToGo(v), valgen.BytesLength(v))
+	goVal := valgen.ToGo(v)
+	if c.Look {
+		_ = fmt.Sprintf("%v %s", goVal, fmt.Sprint(goVal))
+		vh.Label("printed-before-encoding")
+	}
+	lib, err := dt.Bytes(le, goVal, valgen.BytesLength(v))
 	if err != nil {
 		return vh.Failf(class(v), "%s: Bytes failed: %v", dt, err)
+	}
+	if c.Look {
+		// the same Go value once more: printing and encoding leave it as it was
+		_ = fmt.Sprint(goVal)
+		again, err := dt.Bytes(le, goVal, valgen.BytesLength(v))
+		if err != nil || !bytes.Equal(again, lib) {
+			return vh.Failf(class(v), "%s %s: the same Go value encodes as % x the first and as % x (err %v) the second time, printed in between", dt, valgen.Key(v), head(lib), head(again), err)
+		}
 	}
 	a, b := lib, ref
 	if v.T == rc.TDecN || v.T == rc.TNumN {
@@ -119,7 +135,7 @@ func TestWireMatchesReference(t *testing.T) {
 		if v.T == rc.TShortDate || (v.T == rc.TDateTimeN && v.W == 4) {
 			v.JitNs = 0
 		}
-		c := valCase{V: v}
+		c := valCase{V: v, Look: rapid.IntRange(0, 2).Draw(rt, "look") == 0}
 		if len(v.B) < 40 && len(v.S) < 40 {
 			vh.Sample("value:"+tw.String(), c)
 		}
@@ -138,7 +154,7 @@ func TestPerTypeWire(t *testing.T) {
 				if v.T == rc.TShortDate || (v.T == rc.TDateTimeN && v.W == 4) {
 					v.JitNs = 0
 				}
-				return valCase{V: v}
+				return valCase{V: v, Look: rapid.IntRange(0, 2).Draw(rt, "look") == 0}
 			}
 			vh.Check(t, name, vh.N(1500, 60000), gen, runVal)
 		})
